@@ -2,7 +2,7 @@
 CFG = dict(
     dirs=["Common", "C13"], gen=True,
     run_targets=["C13/Run.vo"], proof_targets=["C13/Props.vo"], props="C13/Props.v",
-    gen_obligations=["Inst.gen_cfg_fixed: TxWal::open repairs a torn tail, restore_tx keeps the first logged vote of a shard, TxComplete is logged before any lock release (read from the source on every run)"],
+    gen_obligations=["Inst.scan_follows_every_length: the tail-repair scan of open (complete_prefix_len) has no record-length bound below what the writer can produce (regenerated from the source)", "Inst.gen_cfg_fixed: TxWal::open repairs a torn tail, restore_tx keeps the first logged vote of a shard, TxComplete is logged before any lock release (read from the source on every run)"],
     crate="nvh_c13",
     header=H + "From NV.Common Require Import WalFormat.\nFrom NV.C13 Require Import Model Run.\nOpen Scope N_scope.",
     kinds={"gens": ("gens_case", "check_gens")},
